@@ -192,8 +192,60 @@ def rule_g(F):
     return out
 
 
+def rule_f(F):
+    """ties: among rows whose key-function results are equal (or incomparable) the FIRST row is the answer of min and of
+    max. Decided from how native_minmax selects:
+      - an explicit forward scan that replaces the best row only under a strict comparison (`<` / `>`): first wins;
+      - Iterator::min_by / min_by_key returns the first minimum: fine; Iterator::max_by / max_by_key returns the LAST
+        maximum: violation (unless the iterator was reversed)."""
+    from cao.facts import hir_walk, hir_callee, hir_strip
+    from cao import hirutil as hu
+    from cao import scoping as sc
+    res = []
+    f = F.fn("stdlib::native_minmax")
+    key = "C09/F/native_minmax/first-of-equal-keys-wins"
+    sel = []
+    for x in hir_walk(f.hir["body"]):
+        if x.get("k") == "mcall" and x["name"] in ("min_by", "max_by", "min_by_key", "max_by_key", "min", "max") and \
+                any(n.startswith("std::iter::Iterator::") for n in hir_callee(x)):
+            ad, _base = sc._chain(f, x["recv"])
+            rev = ad.count("rev") % 2 == 1
+            first = (x["name"].startswith("min")) != rev
+            sel.append((x, "Iterator::%s%s" % (x["name"], " on a reversed iterator" if rev else ""), first))
+    # explicit scan: an `if` whose then-branch assigns the running best
+    updates = []
+    for x in hir_walk(f.hir["body"]):
+        if x.get("k") == "if" and any(y.get("k") == "assign" for y in hir_walk(x["then"])) and x.get("else") is None:
+            ops = [y["op"] for y in hir_walk(x["cond"]) if y.get("k") == "bin" and y["op"] in ("Lt", "Le", "Gt", "Ge")]
+            if ops and "Value" in "".join(str(y.get("ty")) + str(y.get("l", {}).get("ty")) for y in hir_walk(x["cond"]) if y.get("k") == "bin"):
+                updates.append((x, ops))
+    if not sel and not updates:
+        return [undecided("C09.F", key, f.loc(), "selection mechanism of native_minmax not recognised")]
+    probs = []
+    for x, what, first in sel:
+        if not first:
+            probs.append("%s (line %s) returns the LAST of several equal extremes" % (what, x.get("ln")))
+    for x, ops in updates:
+        if any(o in ("Le", "Ge") for o in ops):
+            probs.append("the running best is replaced under a non-strict comparison %s (line %s): a later row with an equal key "
+                         "replaces an earlier one" % (ops, x.get("ln")))
+    if updates:
+        # the scan must run front to back
+        for s_ in sc.searches(f):
+            if s_["kind"] == "for" and any(id(u[0]) in set(id(y) for y in hir_walk(s_["node"])) for u in updates):
+                d, _i = sc.direction(s_)
+                if d != "forward":
+                    probs.append("the scan runs back to front (line %s)" % s_["ln"])
+    if probs:
+        res.append(bad("C09.F", key, f.loc(), "ties are not resolved in favour of the first row: " + "; ".join(probs)))
+    else:
+        res.append(ok("C09.F", key, f.loc(), "first of equal keys wins (%s)" % ", ".join([w for _x, w, _f in sel] + ["strict comparison %s in a forward scan" % o for _x, o in updates])))
+    return res
+
+
 RULES = [
     Rule("C09.T", rule_t, 16, "native names, arities, polarity and exports are wired consistently"),
     Rule("C09.N", rule_n, 3, "natives do not mutate their input table"),
+    Rule("C09.F", rule_f, 1, "ties are resolved in favour of the first row"),
     Rule("C09.G", rule_g, 2, "rooting hazards inside the natives (shared with C02.R)"),
 ]
